@@ -104,7 +104,7 @@ func fxAtom(r *hx.Rng, places int) string {
 		ip := "9223372036854775807"[:19-places]
 		return hx.Pick(r, []string{ip, ip + ".5", ip[:len(ip)-1], "1" + strings.Repeat("0", 18-places), strings.Repeat("9", 18-places), strings.Repeat("9", 19-places)})
 	case 7, 8:
-		return hx.Pick(r, []string{"$x", "$y", "$z", "$h", "$n", "$neg", "$foo.bar", "$a_1", "$tiny", "$max4", "$big", "$sp", "$comma", "$str", "$bool", "$x", "$y", "$n", "$h", "$a1e", "$r2e", "$x.1e", "$a#1e", "$rate", "$a1e", "$ch", "$ch2",
+		return hx.Pick(r, []string{"$x", "$y", "$z", "$h", "$n", "$neg", "$foo.bar", "$a_1", "$tiny", "$max4", "$big", "$sp", "$comma", "$str", "$bool", "$x", "$y", "$n", "$h", "$a1e", "$r2e", "$x.1e", "$a#1e", "$rate", "$a1e", "$ch", "$ch2", "$A1e", "$x.1e",
 			"$ws", "$paren", "$expr", "$undefined"})
 	case 9: // texts: the string fall-backs of == < + and the string condition of if
 		if r.Bool() {
